@@ -168,9 +168,67 @@ outer2:
 		}
 	}
 
+	if !reproduces(src, ret, dst) {
+		// The entry-wise patch cannot express a change of order or
+		// multiplicity, and a $delete pattern may match more entries than
+		// intended; replace the whole list instead
+		dst = slices.Clone(dst)
+		dst = append(dst, map[string]any{"$replace": true})
+
+		return dst, nil
+	}
+
 	if len(ret) == 0 {
 		return nil, nil
 	}
 
 	return ret, nil
+}
+
+// reproduces reports whether layering patch over src yields dst.
+func reproduces(src, patch, dst []any) bool {
+	p, err := bkl.New()
+	if err != nil {
+		return false
+	}
+
+	base := bkl.NewDocumentWithData("base", clone(src))
+
+	err = p.MergeDocument(base)
+	if err != nil {
+		return false
+	}
+
+	upper := bkl.NewDocumentWithData("patch", clone(patch))
+	upper.AddParents(base)
+
+	err = p.MergeDocument(upper)
+	if err != nil {
+		return false
+	}
+
+	return reflect.DeepEqual(p.Documents()[0].Data, any(dst))
+}
+
+func clone(v any) any {
+	switch v2 := v.(type) {
+	case map[string]any:
+		ret := map[string]any{}
+		for k, x := range v2 {
+			ret[k] = clone(x)
+		}
+
+		return ret
+
+	case []any:
+		ret := []any{}
+		for _, x := range v2 {
+			ret = append(ret, clone(x))
+		}
+
+		return ret
+
+	default:
+		return v
+	}
 }
